@@ -684,6 +684,52 @@ def _not_val(v):
     return None
 
 
+def _flag_enum_variants(prog, crate, ty):
+    a = prog.adts(crate).get(ty.lstrip('&'))
+    if not a or a.get('kind') != 'Enum' or a.get('pub'):
+        return None
+    if any(v['fields'] for v in a['variants']):
+        return None
+    return [v['name'] for v in a['variants']]
+
+
+def _is_flag_enum(prog, crate, ty):
+    return bool(ty) and _flag_enum_variants(prog, crate, ty) is not None
+
+
+def _variant_index(prog, crate, kind):
+    # kind: path::Enum::Variant
+    if '::' not in kind:
+        return None
+    ety, var = kind.rsplit('::', 1)
+    vs = _flag_enum_variants(prog, crate, ety)
+    return vs.index(var) if vs and var in vs else None
+
+
+def variant_cases(prog, g, atom_of_call, depth=0):
+    """Summary of a function that returns a private field-less enum: [(constraints over the atoms, variant index)], or None"""
+    if depth > 3 or g is None:
+        return None
+    out = []
+    for e in g.exits:
+        res = symbolic_paths(g, 0, e, atom_of_call, prog=prog, want_ret=True, _depth=depth + 1)
+        if res is None:
+            return None
+        for cons, val in res:
+            if val is None:
+                return None
+            if val[0] == 'variant':
+                out.append((cons, val[1]))
+            elif val[0] == 'vcases':
+                for cc, idx in val[1]:
+                    c2 = _merge_cons(cons, cc)
+                    if c2 is not None:
+                        out.append((c2, idx))
+            else:
+                return None
+    return out
+
+
 def bool_cases(prog, g, atom_of_call, depth=0):
     """Summary of a bool-valued function or closure over the atoms: [(constraints, returned value)], one entry per feasible path,
     or None when some path returns a value that is not a function of the atoms."""
@@ -781,6 +827,13 @@ def symbolic_paths(fn, src, dst, atom_of_call, avoid=(), max_paths=20000, prog=N
                 v = env.get(r['pl']['l'])
                 if v is not None and v[0] == 'opt':
                     val = ('discr', v[1])
+                elif v is not None and v[0] in ('variant', 'vcases'):
+                    val = ('v' + 'discr', v)
+            elif r['rv'] == 'agg' and not r.get('ops') and r['kind'].startswith('adt:') and prog is not None:
+                # a flag kept as a variant of a private field-less enum (`YearLoadState::NeedsLoad`): its index in the declaration
+                vi = _variant_index(prog, fn.crate, r['kind'][4:])
+                if vi is not None:
+                    val = ('variant', vi)
             env[d['l']] = val
         t = b['term']
         if t and t['t'] == 'call':
@@ -795,6 +848,9 @@ def symbolic_paths(fn, src, dst, atom_of_call, avoid=(), max_paths=20000, prog=N
                     if g is not None and g.kind in ('Fn', 'AssocFn') and g.ty.get(0) == 'bool':
                         cs = summary(g)
                         val = ('cases', cs) if cs else None
+                    elif g is not None and g.kind in ('Fn', 'AssocFn') and _is_flag_enum(prog, fn.crate, g.ty.get(0, '')):
+                        vc = variant_cases(prog, g, atom_of_call, _depth)
+                        val = ('vcases', vc) if vc else None
                     elif c.short in OPTION_BOOL_COMBINATORS and re.search(r'option::Option', c.callee) and c.args and is_place(c.args[0]) \
                             and not c.args[0]['pl']['p']:
                         recv = env.get(c.args[0]['pl']['l'])
@@ -857,6 +913,20 @@ def symbolic_paths(fn, src, dst, atom_of_call, avoid=(), max_paths=20000, prog=N
                         if c2.get(v[1], aval) != aval:
                             continue
                         c2[v[1]] = aval
+                    elif v[0] == 'vdiscr':
+                        inner = v[1]
+                        def edge_has(idx):
+                            return (idx == vv) if vv is not None else (idx not in vals)
+                        if inner[0] == 'variant':
+                            if not edge_has(inner[1]):
+                                continue
+                        else:
+                            for cc, idx in inner[1]:
+                                if edge_has(idx):
+                                    m = _merge_cons(c2, cc)
+                                    if m is not None:
+                                        go(tg, env, m, seen | {i})
+                            continue
                     elif v[0] == 'cases':
                         truth = (vv != 0) if vv is not None else (0 in vals)
                         for cc, x in v[1]:
